@@ -630,7 +630,7 @@ def loopStopP (cid : Nat) : Prog Int := do
 inductive PollEnt
   | ps (m : ModId) (gen : Nat)      -- the PS source of the module's `gen`-th pipe
   | src (i : SrcId)
-  | tick
+  | tick (gen : Nat)               -- the context's `gen`-th tick source
   | bad (s : String)
   deriving Repr, DecidableEq
 
@@ -651,10 +651,11 @@ def recvOneP (p : PollEnt) : Prog Nat := do
   let s ← getSt
   match p with
   | .bad t => do modify fun s => s.emit (.note s!"ILLEGAL-BATCH {t}"); pure 0
-  | .tick =>
+  | .tick gen =>
     match s.ctx with
     | some c =>
-      if !c.tickPolled then pure 0
+      -- a callback of this batch that set a new tick replaced the source: the entry of the old one is stale
+      if !c.tickPolled || c.tickGen != gen then pure 0
       else do modify fun s => tellSystem s none none T_CTX_TICK; pure 1
     | none => pure 0
   | .src i =>
@@ -1104,12 +1105,12 @@ def apiSetTick (ns : Nat) : Prog Int := do
   match mctx s with
   | none => pure EPIPE
   | some c => do
-    modify fun s => s.updCtx fun c' => { c' with tick := ns, tickPolled := ns != 0 && c.state == .looping }
+    modify fun s => s.updCtx fun c' => { c' with tick := ns, tickPolled := ns != 0 && c.state == .looping, tickGen := c'.tickGen + 1 }
     pure 0
 
 /-- resolve a recorded poll entry against the current registries -/
 def resolveEnt (s : St) : BatchTok → PollEnt
-  | .tick => .tick
+  | .tick => .tick ((s.ctx.map (·.tickGen)).getD 0)
   | .ps h => match s.handles.lookup h with
     | some m => .ps m (match s.mods[m]? with | some md => md.pipeGen | none => 0)
     | none => .bad h
